@@ -580,7 +580,13 @@ def judge(world, c, exc):
             return V, name
     text = texts[key]
     dmg = c.get('damage')
-    if dmg and isinstance(exc, pywbem.MOFParseError):
+    # (only errors of the scanner / grammar are tied to the damaged spot;
+    # a damaged definition - an alias, a class name - may legitimately
+    # surface where it is used, in another file)
+    lexical = str(exc.msg or '').startswith(
+        ('MOF grammar error', 'Illegal character', 'Unexpected end of MOF',
+         'Invalid binary number', 'Invalid octal number'))
+    if dmg and isinstance(exc, pywbem.MOFParseError) and lexical:
         want = None if dmg['file'] is None else \
             os.path.join(root, dmg['file'])
         got = None if key is None else (
